@@ -547,6 +547,48 @@ fn main() {
             println!(";; valid: {:?}", vharness::dec::module::validate(&bytes));
             0
         }
+        Some("compgen") if args.len() >= 2 => {
+            // compgen <n>: validity statistics of the component generator
+            use vharness::gen::component::GenComp;
+            let n: u64 = args[1].parse().unwrap_or(100);
+            let mut reasons: BTreeMap<String, (u64, String)> = BTreeMap::new();
+            let mut ok = 0;
+            for seed in 1..=n {
+                let mut x = seed.wrapping_mul(0x9E3779B97F4A7C15) | 1;
+                let tape: Vec<u8> = (0..3000).map(|_| { x ^= x << 13; x ^= x >> 7; x ^= x << 17; (x >> 24) as u8 }).collect();
+                let mut t = vharness::tape::Tape::new(&tape);
+                let mut mg = |_t: &mut vharness::tape::Tape| -> Option<Vec<u8>> { None };
+                let corpus: Vec<(String, Vec<u8>)> = vec![];
+                let mut g = GenComp { module_gen: &mut mg, corpus: &corpus, max_depth: 4, classes: vec![] };
+                let b = g.generate(&mut t);
+                match vharness::dec::component::validate(&b) {
+                    Ok(()) => ok += 1,
+                    Err(e) => {
+                        let key: String = e.split(" (at offset").next().unwrap_or(&e).chars().take(70).collect();
+                        let ent = reasons.entry(key).or_insert((0, vharness::dec::component::print_wat(&b)));
+                        ent.0 += 1;
+                    }
+                }
+            }
+            println!("valid {} of {}", ok, n);
+            for (k, (c, ex)) in reasons {
+                println!("== {} x {}\n{}", c, k, ex.chars().take(1500).collect::<String>());
+            }
+            0
+        }
+        Some("corpus") => {
+            let c = vharness::corpus::components();
+            let m = vharness::corpus::modules();
+            println!("{} components, {} modules", c.len(), m.len());
+            for (n, b) in c.iter().take(400) {
+                let st = vharness::dec::component::decode(b).map(|i| vharness::dec::component::stats(&i));
+                match st {
+                    Ok(s) => println!("{} bytes depth {} items {} kinds {:?}  {}", b.len(), s.depth, s.items, s.kinds, n),
+                    Err(e) => println!("UNDECODABLE {} {}", n, e),
+                }
+            }
+            0
+        }
         Some("list") => {
             for id in props::all_ids() {
                 println!("{}", id);
